@@ -246,6 +246,9 @@ def check(ctx, rep):
     rule_failure_unfixed(ctx, rep)
     rule_no_changeset_on_failure(ctx, rep)
     rule_worker_no_raise(ctx, rep)
+    from .c18 import rule_no_swallow
+
+    rule_no_swallow(ctx, rep)
     from .c03 import rule_codec_agree
 
     rule_codec_agree(ctx, rep)
